@@ -88,6 +88,9 @@ pub fn run(r: &mut Report, ctx: &Ctx) {
     {
         if ctx.want("agg-backends") {
             for nb in [48usize, 128, 256] {
+                if !ctx.want(&format!("agg-backends-shapes-{nb}")) {
+                    continue;
+                }
                 let backends = agg_backends(nb);
                 let comps = compositions(nb, 3);
                 let ncomp = comps.len() as u64;
@@ -142,6 +145,7 @@ pub fn run(r: &mut Report, ctx: &Ctx) {
                     }
                 }
             }
+            if ctx.want("agg-backends-lanes") {
             r.section(
                 "agg-backends-lanes",
                 "per-lane sweep of every aggregation backend: (q1<=q2<=q3) over the 2^31-boundary alphabet {0,1,2,2^31-1,2^31,2^31+1,2^32-2,2^32-1}; for each triple every lane of an 8-lane group takes every value of {q1-1,q1,q1+1,q2,q2+1,q3,q3+1,0,2^32-1} while the other lanes hold a rotating background; plus all 4^4 class patterns of a 4-lane group (thorough: all 4^8 of an 8-lane group); non-trivial = all",
@@ -209,8 +213,10 @@ pub fn run(r: &mut Report, ctx: &Ctx) {
                     });
                 },
             );
+            }
             // Q-ratio alphabet quartiles through every backend (ties the aggregation to C01f's states)
             let alpha = qratio_alphabet();
+            if ctx.want("agg-backends-qalpha") {
             r.section(
                 "agg-backends-qalpha",
                 "every aggregation backend on bucket arrays built from all pairs (x, y) of the Q-ratio boundary alphabet alternating across lanes with cut points (min, mid, max); non-trivial = all",
@@ -246,6 +252,7 @@ pub fn run(r: &mut Report, ctx: &Ctx) {
                     });
                 },
             );
+            }
         }
 
         if ctx.want("schedules") {
